@@ -3,7 +3,8 @@
 (* on concrete data.  Events recorded from the real validator               *)
 (* (DnssecDnsHandle::send over a scripted upstream, virtual clocks):        *)
 (*   reset     g = [group, sig, key]: the genuine RRset, RRSIG and DNSKEY   *)
-(*             of the case (a new validator, empty cache)                   *)
+(*             of the case (a new validator, empty cache), cfg = its        *)
+(*             validation-cache TTL configuration                           *)
 (*   validate  clk (validator clock, <<hi16, lo16>>), p = what was          *)
 (*             presented, re-abstracted from the wire by the harness        *)
 (*             walker: groups (RRsets of the answer with the verdict and    *)
@@ -28,12 +29,14 @@ Rec == ndJsonDeserialize(IOEnv.TRACE)
 
 VARIABLES l,      \* next line
           g,      \* genuine world of the current case
+          ccfg,   \* validation-cache TTL configuration of the validator of the current case (reported only:
+                  \* no requirement depends on it)
           estab,  \* an earlier call of this case presented genuine signed data with a good key in the window
           bad
-tvars == <<l, g, estab, bad>>
+tvars == <<l, g, ccfg, estab, bad>>
 
 NoWorld == [none |-> TRUE]
-Init == l = 1 /\ g = NoWorld /\ estab = FALSE /\ bad = 0
+Init == l = 1 /\ g = NoWorld /\ ccfg = "none" /\ estab = FALSE /\ bad = 0
 
 e == Rec[l]
 
@@ -98,17 +101,17 @@ Diagnosis ==
 
 Reset ==
     /\ e.ev = "reset"
-    /\ g' = e.g /\ estab' = FALSE /\ UNCHANGED bad
+    /\ g' = e.g /\ ccfg' = e.cfg /\ estab' = FALSE /\ UNCHANGED bad
 Advance ==
-    /\ e.ev = "advance" /\ UNCHANGED <<g, estab, bad>>
+    /\ e.ev = "advance" /\ UNCHANGED <<g, ccfg, estab, bad>>
 Matched ==
     /\ e.ev = "validate" /\ Allowed
-    /\ estab' = (estab \/ Establishes) /\ UNCHANGED <<g, bad>>
+    /\ estab' = (estab \/ Establishes) /\ UNCHANGED <<g, ccfg, bad>>
 Reject ==
     /\ e.ev = "validate" /\ ~Allowed
-    /\ PrintT(<<"MISMATCH", ToJson([case |-> e.case, line |-> l, note |-> e.note, clk |-> e.clk,
+    /\ PrintT(<<"MISMATCH", ToJson([case |-> e.case, cfg |-> ccfg, line |-> l, note |-> e.note, clk |-> e.clk,
                                      upstream_queries |-> e.upstream_queries, why |-> Diagnosis])>>)
-    /\ estab' = (estab \/ Establishes) /\ bad' = bad + 1 /\ UNCHANGED g
+    /\ estab' = (estab \/ Establishes) /\ bad' = bad + 1 /\ UNCHANGED <<g, ccfg>>
 
 Next == l <= Len(Rec) /\ l' = l + 1 /\ (Reset \/ Advance \/ Matched \/ Reject)
 
